@@ -616,8 +616,68 @@ def m_dict_values(eng, s, d, args, kw):
     return [(SeqView(h.dlen(ref), arr), s)]
 
 
+def dict_merge(eng, s, d, other):
+    """d.update(other) for a dict `other` of symbolic size: keys of d (order kept) then the new keys of other in
+    other's order; values of other win"""
+    h = s.heap
+    s.assume(*h.dict_wf(d.ref))
+    s.assume(*h.dict_wf(other.ref))
+    eng.check_write(s, d.ref, "dict")
+    from .heap import DictComps
+    old = DictComps(h.dlen(d.ref), h.dkeys(d.ref), h._get("dhas", d.ref), h._get("didx", d.ref), h._get("dval", d.ref))
+    oth = DictComps(h.dlen(other.ref), h.dkeys(other.ref), h._get("dhas", other.ref), h._get("didx", other.ref), h._get("dval", other.ref))
+    hh, new = h.fresh_dict_at(d.ref, "upd")
+    s.heap = hh
+    k = z3.Const("up_k", Val)
+    k2 = z3.Const("up_k2", Val)
+    i = z3.Int("up_i")
+    s.assume(*new.wf())
+    s.assume(z3.ForAll([k], new.has(k) == z3.Or(old.has(k), oth.has(k)), patterns=[new.has(k)]),
+             z3.ForAll([k], new.val(k) == z3.If(oth.has(k), oth.val(k), old.val(k)), patterns=[new.val(k)]),
+             z3.ForAll([k], z3.Implies(old.has(k), new.idx(k) == old.idx(k)), patterns=[new.idx(k)]),
+             z3.ForAll([i], z3.Implies(z3.And(0 <= i, i < old.n), new.key(i) == old.key(i)), patterns=[new.key(i)]),
+             new.n >= old.n, new.n <= old.n + oth.n,
+             z3.ForAll([k, k2], z3.Implies(z3.And(oth.has(k), oth.has(k2), z3.Not(old.has(k)), z3.Not(old.has(k2))),
+                                           (new.idx(k) < new.idx(k2)) == (oth.idx(k) < oth.idx(k2))),
+                       patterns=[z3.MultiPattern(new.idx(k), new.idx(k2))]))
+    return [(sv_none(), s)]
+
+
+def m_dict_pop(eng, s, d, args, kw):
+    h = s.heap
+    k = eng.as_val(s, args[0])
+    s.assume(*h.dict_wf(d.ref))
+    has = h.dhas(d.ref, k.t)
+    if len(args) > 1:
+        raise Unsupported("dict.pop with default")
+    ok, bad = eng.branch(s, has)
+    if bad is not None:
+        eng.raise_exc(bad, KeyError)
+    if ok is None:
+        return []
+    h = ok.heap
+    val = h.dget(d.ref, k.t)
+    eng.check_write(ok, d.ref, "dict")
+    from .heap import DictComps
+    old = DictComps(h.dlen(d.ref), h.dkeys(d.ref), h._get("dhas", d.ref), h._get("didx", d.ref), h._get("dval", d.ref))
+    hh, new = h.fresh_dict_at(d.ref, "pop")
+    ok.heap = hh
+    x = z3.Const("pp_k", Val)
+    x2 = z3.Const("pp_k2", Val)
+    ok.assume(*new.wf())
+    ok.assume(new.n == old.n - 1,
+              z3.ForAll([x], new.has(x) == z3.And(old.has(x), x != k.t), patterns=[new.has(x)]),
+              z3.ForAll([x], z3.Implies(x != k.t, new.val(x) == old.val(x)), patterns=[new.val(x)]),
+              z3.ForAll([x, x2], z3.Implies(z3.And(new.has(x), new.has(x2)), (new.idx(x) < new.idx(x2)) == (old.idx(x) < old.idx(x2))),
+                        patterns=[z3.MultiPattern(new.idx(x), new.idx(x2))]))
+    return [(SV(val), ok)]
+
+
 def m_dict_update(eng, s, d, args, kw):
     other = eng.as_val(s, args[0]) if args else None
+    if other is None and set(kw) == {"**"}:
+        other = eng.as_val(s, kw["**"])
+        kw = {}
     h = s.heap
     s.assume(*h.dict_wf(d.ref))
     if other is not None:
@@ -625,7 +685,9 @@ def m_dict_update(eng, s, d, args, kw):
             raise Unsupported("dict.update with non-dict")
         n = smt.simp(h.dlen(other.ref))
         if not z3.is_int_value(n):
-            raise Unsupported("dict.update with dict of symbolic size")
+            if kw:
+                raise Unsupported("dict.update(d, **kw) with symbolic d")
+            return dict_merge(eng, s, d, other)
         eng.check_write(s, d.ref, "dict")
         for j in range(n.as_long()):
             key = smt.simp(z3.Select(h.dkeys(other.ref), j))
@@ -766,7 +828,7 @@ METHODS = {
     ("list", "append"): m_list_append, ("list", "extend"): m_list_extend, ("list", "index"): m_list_index,
     ("list", "pop"): m_list_pop, ("list", "insert"): m_list_insert, ("list", "count"): m_list_count,
     ("dict", "get"): m_dict_get, ("dict", "items"): m_dict_items, ("dict", "keys"): m_dict_keys,
-    ("dict", "values"): m_dict_values, ("dict", "update"): m_dict_update,
+    ("dict", "values"): m_dict_values, ("dict", "update"): m_dict_update, ("dict", "pop"): m_dict_pop,
     ("set", "add"): m_set_add,
     ("str", "join"): m_str_join, ("str", "split"): m_str_split, ("str", "startswith"): m_str_startswith,
     ("str", "endswith"): m_str_endswith, ("str", "lstrip"): _strip(0), ("str", "rstrip"): _strip(1),
